@@ -295,6 +295,11 @@ impl Shared {
             drop(st);
             std::panic::resume_unwind(Box::new(AbortUnwind));
         }
+        // loop-iteration markers only count towards the event budget (so that an unbounded
+        // loop is a livelock); they are not choice points: the loop bodies have their own
+        if matches!(park, Park::Switch) && label.ends_with(".iter") {
+            return;
+        }
         let park = match park {
             Park::Yield(_) => Park::Yield(st.grants),
             p => p,
@@ -1185,6 +1190,86 @@ pub fn family(name: &str, tier: &str) -> Vec<Program> {
                     }
                     for cap in [None, Some(1u64)] {
                         out.push(Program { cfg: base(cap, Some(2)), prefix: vec![Op::Ins(0, 1), Op::Sync, Op::Adv(1)], threads: vec![a.clone(), b.clone()] });
+                    }
+                }
+            }
+        }
+        // systematic product: configurations x preludes (non-initial states with work
+        // queued for maintenance) x conflicting thread programs from one alphabet, plus
+        // "maintenance against two writers" with three threads
+        "gen" => {
+            struct G {
+                cap: Option<u64>,
+                weigher: bool,
+                ttl: Option<u32>,
+                tti: Option<u32>,
+            }
+            let gs = [
+                G { cap: None, weigher: false, ttl: None, tti: None },
+                G { cap: Some(1), weigher: false, ttl: None, tti: None },
+                G { cap: Some(2), weigher: true, ttl: None, tti: None },
+                G { cap: None, weigher: false, ttl: None, tti: Some(2) },
+                G { cap: Some(2), weigher: false, ttl: Some(2), tti: None },
+                G { cap: None, weigher: true, ttl: None, tti: None },
+            ];
+            for g in &gs {
+                let w2 = if g.weigher { 2 } else { 1 };
+                let expiry = g.ttl.is_some() || g.tti.is_some();
+                let mut preludes: Vec<Vec<Op>> = vec![
+                    vec![],
+                    vec![Op::Ins(0, 1), Op::Sync],
+                    vec![Op::Ins(0, 1), Op::Sync, Op::Ins(0, 1), Op::Get(0)],
+                    vec![Op::Ins(0, 1), Op::Sync, Op::Adv(1), Op::InvAll],
+                ];
+                if g.cap.is_some() {
+                    preludes.push(vec![Op::Ins(0, 1), Op::Sync, Op::Get(1), Op::Ins(1, 1)]);
+                    preludes.push(vec![Op::Ins(0, 1), Op::Sync, Op::Get(1), Op::Ins(1, 1), Op::Ins(0, 1)]);
+                }
+                if g.weigher {
+                    preludes.push(vec![Op::Ins(0, 1), Op::Ins(1, 1), Op::Sync, Op::Ins(1, 2), Op::Adv(1)]);
+                    preludes.push(vec![Op::Ins(0, 2), Op::Sync, Op::Ins(0, 1)]);
+                }
+                if expiry {
+                    preludes.push(vec![Op::Ins(0, 1), Op::Ins(1, 1), Op::Sync, Op::Adv(3)]);
+                    preludes.push(vec![Op::Ins(0, 1), Op::Sync, Op::Adv(1), Op::Get(0), Op::Adv(1)]);
+                }
+                let mut alpha = vec![TOp::Ins(0, 1), TOp::Get(0), TOp::Inv(0), TOp::Ins(1, 1), TOp::InvAll, TOp::Sync];
+                if g.weigher {
+                    alpha.push(TOp::Ins(0, w2));
+                }
+                if expiry {
+                    alpha.push(TOp::Adv(1));
+                }
+                let ss = seqs(&alpha, 2);
+                let max_total = if thorough { 3 } else { 2 };
+                let mk = |pre: &Vec<Op>, th: Vec<Vec<TOp>>| {
+                    let mut c = base(g.cap, g.tti);
+                    c.ttl = g.ttl;
+                    c.weigher = g.weigher;
+                    Program { cfg: c, prefix: pre.clone(), threads: th }
+                };
+                for pre in &preludes {
+                    for (i, a) in ss.iter().enumerate() {
+                        for b in ss.iter().skip(i) {
+                            let uses_clock = a.iter().chain(b.iter()).any(|o| matches!(o, TOp::Adv(_)));
+                            if a.len() + b.len() > max_total || !(conflicting(a, b) || (uses_clock && expiry)) {
+                                continue;
+                            }
+                            out.push(mk(pre, vec![a.clone(), b.clone()]));
+                        }
+                    }
+                    // maintenance against two writers (thorough tier)
+                    if !thorough {
+                        continue;
+                    }
+                    let singles = [TOp::Ins(0, 1), TOp::Inv(0), TOp::Get(0), TOp::Ins(1, 1), TOp::Ins(0, w2)];
+                    for (i, a) in singles.iter().enumerate() {
+                        for b in singles.iter().skip(i) {
+                            if !matches!(a, TOp::Ins(..) | TOp::Inv(_)) && !matches!(b, TOp::Ins(..) | TOp::Inv(_)) {
+                                continue;
+                            }
+                            out.push(mk(pre, vec![vec![TOp::Sync], vec![*a], vec![*b]]));
+                        }
                     }
                 }
             }
